@@ -238,7 +238,7 @@ func c19KeyVariants(ver *fx.Version) []map[string]interface{} {
 
 func c19(r *hx.Run) {
 	fx.Quiet()
-	r.Rule = "(handler configurations: create responses and long-form resolution under every combination of label, domain and namespace alias, ids per the rule documented in the handler; GetHint) (the generic doctransformer is run on the same jobs with plain options: document == internal document + id, same metadata, missing id refused) internal documents built from every validator-accepted key variant (6 key types x {Ed25519/P-256/secp256k1 JWK, base58} x 8 purpose sets), all ordered pairs of a 24-variant subset (thorough: triples of 10), service variants (string/list/object endpoint x extra members) singly and in pairs, alias lists, foreign members; resolution models over commitments {both, recovery only, none} x deactivated x anchor origin {nil, string, object} x version id x times x references; transformer options base x method context x operation lists x {default, custom} key-context map; TransformDocument on the real transformer must equal the independent projection (own base58/multibase) and metadata computed from the model; the same relation through DocumentHandler.ResolveDocument for published and unpublished DIDs. Non-trivial: every distinct (document, model, options) triple."
+	r.Rule = "(handler configurations: create responses and long-form resolution under every combination of label, domain and namespace alias, ids per the rule documented in the handler; GetHint) (the generic doctransformer is run on the same jobs with plain options: document == internal document + id, same metadata, missing id refused) internal documents built from every validator-accepted key variant (6 key types x {Ed25519/P-256/secp256k1 JWK, base58} x 8 purpose sets), all ordered pairs of a 24-variant subset (thorough: triples of 10), service variants (string/list/object endpoint x extra members) singly and in pairs, documents with 3..33 keys / services / aliases, alias lists, foreign members; resolution models over commitments {both, recovery only, none} x deactivated x anchor origin {nil, string, object} x version id x times x references; transformer options base x method context x operation lists x {default, custom} key-context map; TransformDocument on the real transformer must equal the independent projection (own base58/multibase) and metadata computed from the model; the same relation through DocumentHandler.ResolveDocument for published and unpublished DIDs. Non-trivial: every distinct (document, model, options) triple."
 	ver := fx.NewVersion(fx.DefaultProtocol(), nil)
 	keyVars := c19KeyVariants(ver)
 	r.Extra["key_variants"] = len(keyVars)
@@ -289,6 +289,16 @@ func c19(r *hx.Run) {
 		for j, t := range svcVars {
 			docs = append(docs, docCase{fmt.Sprintf("svcs%d,%d", i, j), doc.Doc{"service": []interface{}{clone(s, "sa"), clone(t, "sb")}, "publicKey": []interface{}{clone(keyVars[0], "")}}})
 		}
+	}
+	// larger documents: n keys rotating over all accepted variants and n services (slice growth, context / relationship de-duplication)
+	for _, n := range []int{3, 4, 5, 8, 9, 16, 17, 33} {
+		var ks, ss, as []interface{}
+		for i := 0; i < n; i++ {
+			ks = append(ks, clone(keyVars[(i*7+n)%len(keyVars)], fmt.Sprintf("k%d", i)))
+			ss = append(ss, clone(svcVars[(i*3+n)%len(svcVars)], fmt.Sprintf("s%d", i)))
+			as = append(as, fmt.Sprintf("https://aka%d.example", i))
+		}
+		docs = append(docs, docCase{fmt.Sprintf("sized%d", n), doc.Doc{"publicKey": ks, "service": ss, "alsoKnownAs": as}})
 	}
 	for i, aka := range [][]interface{}{{"https://a.example"}, {"https://a.example", "did:example:123"}} {
 		docs = append(docs, docCase{fmt.Sprintf("aka%d", i), doc.Doc{"alsoKnownAs": aka, "publicKey": []interface{}{clone(keyVars[1], "")}, "service": []interface{}{clone(svcVars[3], "")}, "foreign": map[string]interface{}{"x": 1.0}}})
